@@ -549,7 +549,9 @@ class HostConnection(object):
                 conn.close()
 
     def _set_keyspace_for_all_conns(self, keyspace, callback):
+        self._keyspace = keyspace
         if self.is_shutdown or not self._connection:
+            callback(self, [])
             return
 
         def connection_finished_setting_keyspace(conn, error):
@@ -557,7 +559,6 @@ class HostConnection(object):
             errors = [] if not error else [error]
             callback(self, errors)
 
-        self._keyspace = keyspace
         self._connection.set_keyspace_async(keyspace, connection_finished_setting_keyspace)
 
     def get_connections(self):
